@@ -240,10 +240,15 @@ class RealBench:
     run as they stand), and their conversion into a PassModel snapshot so that the same judgement functions apply."""
 
     def __init__(self, repo, max_steps=8_000_000):
-        from .eval_fold import real_model
+        from . import circuit_model as _cm
         self.repo = repo
-        self.M = real_model(repo)
+        # the repository's own Gate class as well (format_gate, __eq__, ...)
+        self.M = _cm.Model(repo, Denotations(repo), real_gates=True)
         it = self.it = self.M.interp
+        it.allow_while = True
+        it.eager_generators.add('cirbo.core.circuit.circuit.Circuit.top_sort')
+        it.eager_generators.add('cirbo.core.circuit.circuit.Circuit._traverse_circuit')
+        it.executed = {}
         it.real_super = True
         it.instance_dunders = True
         it.max_steps = max_steps
@@ -533,15 +538,14 @@ def fold_tseytin(ck: Checker, R: str):
     value, inputs are variables 1..n in order."""
     from .cnf_templates import TSEYTIN
     repo = ck.repo
-    den = Denotations(repo)
-    ov = gate_overrides(den)
-    types = {t.var: t for t in ov.values() if isinstance(t, GateTypeVal)}
-    it = Interp(repo, overrides=ov, max_steps=2_000_000, max_depth=120)
-    it.allow_while = True   # an explicit-stack version of the gate walk is a worklist loop over the model circuit
+    # (the circuits are instances of the repository's own Circuit class; a PassModel snapshot of each is the oracle's view)
+    RB = RealBench(repo, max_steps=3_000_000)
+    it = RB.it
     mod = repo.mod(TSEYTIN)
     fn = mod.func('tseytin_transformation')
     tf = RepoFunc(it, mod, fn)
     fam = family(ck.tier)
+    fam = fam[:len(HANDMADE) + (60 if ck.tier == 'quick' else 600)]
     probs = []
     n_runs = 0
 
@@ -563,16 +567,23 @@ def fold_tseytin(ck: Checker, R: str):
     # entry of circuit.inputs, not the i-th INPUT gate added
     variants = [(s_, o_, False) for s_, o_ in variants] + [(s_, o_, True) for s_, o_ in HANDMADE if sum(1 for x in s_ if x[1] == 'INPUT') >= 2]
     for spec, outs, reorder in variants:
-        c = build(types, spec, outs)
-        if reorder:
-            c._inputs = list(reversed(c._inputs))
-        sels = [None] + [[k] for k in range(len(outs))] + ([[len(outs) - 1, 0]] if len(outs) > 1 else [])
+        try:
+            rc = RB.circuit(spec, outs)
+            if reorder:
+                RB.call(rc, 'set_inputs', list(reversed(rc._d['_inputs'])))
+        except InterpRaise as e:
+            probs.append(f'building the circuit raises {e.exc_name}')
+            continue
+        c = RB.model(rc)
+        # all outputs, every single output, two outputs against their order, and the explicitly empty selection
+        sels = [None] + [[k] for k in range(len(outs))] + ([[len(outs) - 1, 0]] if len(outs) > 1 else []) + [[]]
         for sel in sels:
             n_runs += 1
             it.steps = 0
+            RB.M.den.interp.steps = 0
             desc = f'{[(l, t) + tuple(o) for l, t, o in spec if t != "INPUT"]} outputs {outs}' + (f' selection {sel}' if sel is not None else '') + (f' (inputs re-ordered to {c._inputs})' if reorder else '')
             try:
-                cnf = clauses_of(tf(c) if sel is None else tf(c, list(sel)))
+                cnf = clauses_of(tf(rc) if sel is None else tf(rc, list(sel)))
             except InterpRaise as e:
                 probs.append(f'raises {e.exc_name} on {desc}')
                 continue
@@ -831,28 +842,44 @@ def fold_sat_query(ck: Checker, R: str):
     True exactly when some input assignment makes every output True, and a returned model satisfies the CNF and projects onto
     such an assignment (inputs are variables 1..n)."""
     repo = ck.repo
-    den = Denotations(repo)
-    ov = gate_overrides(den)
-    types = {t.var: t for t in ov.values() if isinstance(t, GateTypeVal)}
-    ov['pysat.formula.CNF'] = _HostCNF
-    ov['pysat.solvers.Solver'] = _BruteSolver
-    it = Interp(repo, overrides=ov, max_steps=4_000_000, max_depth=120)
-    it.allow_while = True
+    RB = RealBench(repo, max_steps=4_000_000)
+    it = RB.it
+    for k_, v_ in (('pysat.formula.CNF', _HostCNF), ('pysat.solvers.Solver', _BruteSolver)):
+        it.overrides[k_] = v_
+        it.externals[k_] = v_
+    it._globals_cache.clear()
     sm = repo.mod('cirbo.sat.sat')
     f = RepoFunc(it, sm, sm.func('is_circuit_satisfiable'))
     probs = []
     n = 0
+    # no state may survive a reduction: a formula obtained for a circuit and then extended by the caller must not change what
+    # a later query about the same circuit answers
+    cm_ = repo.mod('cirbo.sat.cnf.cnf')
+    try:
+        Cnf = it.global_value(cm_, 'Cnf')
+        rc = RB.circuit([('a', 'INPUT', ()), ('b', 'INPUT', ()), ('g', 'OR', ('a', 'b'))], ['g'])
+        first = it.getattr(cm_, None, Cnf, 'from_circuit')(rc)
+        it.getattr(cm_, None, first, 'add_clause')([-1])
+        it.getattr(cm_, None, first, 'add_clause')([-2])
+        it.steps = 0
+        again = f(RB.circuit([('a', 'INPUT', ()), ('b', 'INPUT', ()), ('g', 'OR', ('a', 'b'))], ['g']))
+        if not again._d.get('answer'):
+            probs.append('after Cnf.from_circuit(c) was extended by its caller (add_clause), is_circuit_satisfiable on an equal circuit answers False for OR(a, b): the reduction hands out shared state')
+    except InterpRaise as e:
+        probs.append(f'Cnf.from_circuit / add_clause raises {e.exc_name}')
     fam = [x for x in HANDMADE] + family(ck.tier)[len(HANDMADE):len(HANDMADE) + (25 if ck.tier == 'quick' else 200)]
     # no output at all: every assignment makes "all outputs" True, and the formula has no clause and no variable
     fam += [([('a', 'INPUT', ())], []), ([('a', 'INPUT', ()), ('b', 'INPUT', ()), ('g', 'AND', ('a', 'b'))], []), ([], [])]
     for spec, outs in fam:
         n += 1
-        c = build(types, spec, outs)
+        rc = RB.circuit(spec, outs)
+        c = RB.model(rc)
         desc = f'{[(l, t) + tuple(o) for l, t, o in spec if t != "INPUT"]} outputs {list(outs)}'
         it.steps = 0
+        RB.M.den.interp.steps = 0
         _BruteSolver.log = []
         try:
-            res = f(c)
+            res = f(rc)
         except InterpRaise as e:
             probs.append(f'raises {e.exc_name} on {desc}')
             continue
